@@ -399,8 +399,10 @@ static void *ares_reinit_thread(void *arg)
 
   ares_channel_lock(channel);
 
-  /* Flush cached queries on reinit */
-  if (status == ARES_SUCCESS && channel->qcache) {
+  /* Flush cached queries on reinit, also when the configuration could not be
+   * read: the application asked for a reload because something changed, and
+   * answers obtained under the old state of affairs must not outlive it */
+  if (channel->qcache) {
     ares_qcache_flush(channel->qcache);
   }
 
